@@ -789,6 +789,11 @@ COPY_CALLS = {'np.copy', 'np.array', 'np.concatenate', 'np.repeat', 'np.vstack',
 def _is_fresh(func, cfg, nid, e, depth=0):
     if depth > 5:
         return False
+    if isinstance(e, ast.Subscript):
+        # mask / index-array selection copies; a view of a fresh array is fresh as well
+        if _index_makes_copy(cfg, nid, e.slice):
+            return True
+        return _is_fresh(func, cfg, nid, e.value, depth + 1)
     if isinstance(e, ast.Call):
         cn = dotted(e.func)
         if cn in COPY_CALLS:
